@@ -2,7 +2,7 @@
 # usage: tools_mut.sh <patch.diff> <PROP> [more props]   -- apply a seeded change to /repo, run quick checks, undo
 patch="$1"; shift
 cd /repo || exit 2
-if ! git apply --check "$patch" 2>/dev/null; then echo "PATCH DOES NOT APPLY: $patch"; exit 3; fi
+case "$patch" in /*) ;; *) patch="/verif/$patch";; esac; if ! git apply --check "$patch" 2>/dev/null; then echo "PATCH DOES NOT APPLY: $patch"; exit 3; fi
 git apply "$patch"
 cd /verif
 for p in "$@"; do
